@@ -694,6 +694,8 @@ fn tretry_t<T: V + Encode<()> + CborLen<()>>(val: &str) -> String {
     format!("same {}", hex(&T::canon(first)))
 }
 
+thread_local! { pub static PLAIN: std::cell::Cell<bool> = std::cell::Cell::new(false); }
+
 fn tdec_t<T: V + Decode<'static, ()>>(h: &str) -> String {
     let input = match unhex(h) { Some(b) => arena_put(b), None => return "bad-op".into() };
     let mut d = Decoder::new(input);
@@ -701,6 +703,7 @@ fn tdec_t<T: V + Decode<'static, ()>>(h: &str) -> String {
         Ok(v) => { let mut s = String::new(); v.show(&mut s); (format!("ok {} {}", s, d.position()), format!("ok {}", s)) }
         Err(e) => (format!("err {} {}", dclass(&e), d.position()), format!("err {}", dclass(&e)))
     };
+    if PLAIN.with(|p| p.get()) { return res }      // `tdecm` measures the allocations of ONE decode
     // the one-shot entry points are the same decode on a fresh decoder: same value or same error class
     let via = |r: Result<T, minicbor::decode::Error>| match r {
         Ok(v) => { let mut s = String::new(); v.show(&mut s); format!("ok {}", s) }
@@ -800,6 +803,8 @@ pub fn tlist() {
     for e in registry() { println!("{} {} {} {}", e.name, e.desc, e.gdesc, e.flags) }
 }
 
+/// builds the registry (lazily initialised) so that its own allocations are not attributed to the first measured operation
+pub fn warm() { REG.with(|r| { let _ = r.len(); }) }
 pub fn run_enc(w: &[&str]) -> String { run(w, 0) }
 pub fn run_dec(w: &[&str]) -> String { run(w, 1) }
 pub fn run_retry(w: &[&str]) -> String { run(w, 2) }
